@@ -309,11 +309,12 @@ def gen_op(ctx, shadow, at=None, ps_choices=None, engine_ports=None):
             if not isinstance(pn.topology[port], tuple):
                 return None
         tbase = engine_ports[port] if engine_ports is not None else _norm(ps[:-1] + pn.topology[port])
-        if tbase is None or tuple(tbase[:len(b) + 1]) == b + (key,):
-            return None          # moving a node into its own subtree makes the hierarchy cyclic
         target = port
         if rng.random() < 0.15:
             target = (port, rng.choice(['sub', 'k1', 'x']))
+            tbase = None if tbase is None else tuple(tbase) + target[1:]
+        if tbase is None or tuple(tbase[:len(b) + 1]) == b + (key,):
+            return None          # moving a node into its own subtree makes the hierarchy cyclic
         mv = {'source': key if rng.random() < 0.8 else (key,), 'target': target}
         if rng.random() < 0.2:
             src = node.inner[key]
